@@ -16,7 +16,8 @@ against it:
             synchronize_listener     disconnect test;  update_chain_tip  partial-advance guard
             HeaderCache              block_connected / insert_during_diff cutoff + retain, blocks_disconnected retain
             find_difference_from_best_block   locator height_diff index and the checked_sub
-  init.rs   synchronize_listeners    disconnect test, longest-list test, per-listener delivery test,
+  init.rs   synchronize_listeners    the WHOLE per-listener body of the first loop (statement translator: if / continue /
+                                     disconnect_blocks / chain_listeners_at_height.push / most_connected_blocks =), per-listener delivery test,
                                      MAX_BLOCKS_AT_ONCE (evaluated) and the truncate that consumes a batch
 
 What is NOT an expression (statement order: fetch-then-notify-then-cache, `?` positions, drain(..).rev()) stays
@@ -82,6 +83,100 @@ def one(pat, text, what):
     ms = re.findall(pat, text, re.S)
     if len(ms) != 1: raise Bad('%s: expected exactly one occurrence, found %d' % (what, len(ms)))
     return ms[0]
+
+
+# ---- init.rs synchronize_listeners: statement translator for the per-listener loop body ------------------------
+STEP_PREFIX = ('let chain_listener = &DynamicChainListener(chain_listener); '
+               'let mut chain_notifier = ChainNotifier { header_cache: &mut header_cache, chain_listener }; '
+               'let difference = chain_notifier .find_difference_from_best_block(best_header, old_best_block, &mut chain_poller) .await?;')
+STEP_RENAMES = [(r'\bdifference\.common_ancestor\b', 'difference_common_ancestor'), (r'\bdifference\.connected_blocks\b', 'difference_connected_blocks'),
+                (r'\bold_best_block\.block_hash\b', 'old_best_block_hash'), (r'\bold_best_block\.height\b', 'old_best_block_height'),
+                (r'\bmost_connected_blocks\b', 'st.most')]
+
+def _match_brace(t, i):
+    """t[i] == '{' -> index just after the matching '}'"""
+    depth = 0
+    for j in range(i, len(t)):
+        if t[j] == '{': depth += 1
+        elif t[j] == '}':
+            depth -= 1
+            if depth == 0: return j + 1
+    raise Bad('synchronize_listeners: unbalanced braces in the listener loop')
+
+def _parse_stmts(t):
+    """statements of a block: ('if', cond, then, else) | ('continue',) | ('disc', e) | ('recd', e) | ('most', e); anything else is refused"""
+    out = []; t = t.strip()
+    while t:
+        if t.startswith('if '):
+            i = t.index('{'); j = _match_brace(t, i)
+            cond = t[3:i].strip(); then = _parse_stmts(t[i + 1:j - 1]); els = []
+            t = t[j:].strip()
+            if t.startswith('else'):
+                t = t[4:].strip()
+                if not t.startswith('{'): raise Bad('synchronize_listeners listener loop: `else if` is not supported by the statement translator')
+                j = _match_brace(t, 0); els = _parse_stmts(t[1:j - 1]); t = t[j:].strip()
+            out.append(('if', cond, then, els)); continue
+        k = t.find(';')
+        if k < 0: raise Bad('synchronize_listeners listener loop: trailing text `%s`' % t)
+        st, t = t[:k].strip(), t[k + 1:].strip()
+        m = re.fullmatch(r'chain_notifier\.disconnect_blocks\((.+)\)', st)
+        if m: out.append(('disc', m.group(1))); continue
+        m = re.fullmatch(r'chain_listeners_at_height\.push\(\((.+), chain_listener(?:\.0)?\)\)', st)
+        if m: out.append(('recd', m.group(1))); continue
+        m = re.fullmatch(r'most_connected_blocks = (.+)', st)
+        if m: out.append(('most', m.group(1))); continue
+        if st == 'continue': out.append(('continue',)); continue
+        raise Bad('synchronize_listeners listener loop: statement `%s` is not one the translator knows' % st)
+    return out
+
+def _has_continue(stmts):
+    return any(s[0] == 'continue' or (s[0] == 'if' and (_has_continue(s[2]) or _has_continue(s[3]))) for s in stmts)
+
+def _emit(stmts, rest):
+    """Lean term of type InitStep with `st` in scope: run `stmts`, then `rest` (unless a `continue` ends the iteration)"""
+    if not stmts: return rest
+    s, tail = stmts[0], stmts[1:]
+    trs = lambda e: tr(e, STEP_RENAMES)
+    if s[0] == 'continue': return 'st'
+    if s[0] == 'disc': return 'let st : InitStep := { st with disc := st.disc ++ [%s] }; %s' % (trs(s[1]), _emit(tail, rest))
+    if s[0] == 'recd': return 'let st : InitStep := { st with recd := st.recd ++ [%s] }; %s' % (trs(s[1]), _emit(tail, rest))
+    if s[0] == 'most': return 'let st : InitStep := { st with most := %s }; %s' % (trs(s[1]), _emit(tail, rest))
+    cond = trs(s[1])
+    if not _has_continue(s[2]) and not _has_continue(s[3]):
+        return 'let st : InitStep := (if %s then (%s) else (%s)); %s' % (cond, _emit(s[2], 'st'), _emit(s[3], 'st'), _emit(tail, rest))
+    after = _emit(tail, rest)
+    return '(if %s then (%s) else (%s))' % (cond, _emit(s[2], after), _emit(s[3], after))
+
+def translate_listener_step(b):
+    k = b.find('for (old_best_block, chain_listener) in chain_listeners.drain(..) {')
+    if k < 0: raise Bad('synchronize_listeners: first loop header changed')
+    i = b.index('{', k); j = _match_brace(b, i)
+    body = b[i + 1:j - 1].strip()
+    head = 'let (common_ancestor, connected_blocks) = {'
+    if not body.startswith(head): raise Bad('synchronize_listeners: the listener loop no longer starts with the difference block')
+    i = len(head) - 1; j = _match_brace(body, i)
+    inner = body[i + 1:j - 1].strip(); outer = body[j:].strip()
+    if not outer.startswith(';'): raise Bad('synchronize_listeners: difference block shape changed')
+    outer = outer[1:]
+    if not inner.startswith(STEP_PREFIX): raise Bad('synchronize_listeners: the find_difference_from_best_block call (arguments, `?`) changed')
+    inner = inner[len(STEP_PREFIX):].strip()
+    m = re.fullmatch(r'(.*?)\(([^(),]+), ([^(),]+)\)', inner, re.S)
+    if not m: raise Bad('synchronize_listeners: the difference block no longer ends in a (common_ancestor, connected_blocks) pair')
+    inner_stmts = _parse_stmts(m.group(1)); outer_stmts = _parse_stmts(outer)
+    rest = 'let common_ancestor : Hdr := %s; let connected_blocks : List Hdr := %s; %s' % (
+        tr(m.group(2), STEP_RENAMES), tr(m.group(3), STEP_RENAMES), _emit(outer_stmts, 'st'))
+    term = _emit(inner_stmts, rest)
+    return ('def initListenerStep (best_header : Hdr) (old_best_block_hash old_best_block_height : Nat) (difference_common_ancestor : Hdr)\n'
+            '    (difference_connected_blocks most_connected_blocks : List Hdr) : InitStep :=\n'
+            '  let st : InitStep := ⟨[], [], most_connected_blocks⟩;\n  ' + term)
+
+
+# ---- whole-body pins: the literal statement sequence of a function, `«»` = a hole holding a translated expression ----------
+def pin(body, template, what):
+    parts = [re.escape(x) for x in norm(template).split('«»')]
+    m = re.fullmatch('(.+?)'.join(parts), body, re.S)
+    if not m: raise Bad('%s: the statement sequence of the body changed (whole-body pin)' % what)
+    return m.groups()
 
 ERR = r'return Err\(BlockSourceError::persistent\("([^"]*)"\)\);'
 
@@ -216,17 +311,80 @@ def gen(srcs):
 
     # ---- init.rs synchronize_listeners ---------------------------------------------------------------------
     b = body_of(init, 'synchronize_listeners')
-    c = one(r'if (difference\.common_ancestor\.block_hash [!=]= old_best_block\.block_hash) \{ chain_notifier\.disconnect_blocks\(difference\.common_ancestor\); \}', b, 'synchronize_listeners: disconnect test')
-    d('init.rs synchronize_listeners: `if %s { disconnect_blocks(common_ancestor) }`' % c,
-      'def initDisconnects (common_ancestor : Hdr) (old_best_block_hash : Nat) : Bool :=\n  ' + tr(c, [(r'difference\.common_ancestor', 'common_ancestor'), (r'old_best_block\.block_hash', 'old_best_block_hash')]))
-    c = one(r'if (connected_blocks\.len\(\) [<>=]+ most_connected_blocks\.len\(\)) \{ most_connected_blocks = connected_blocks; \}', b, 'synchronize_listeners: longest list')
-    d('init.rs synchronize_listeners: `if %s { most_connected_blocks = connected_blocks }`' % c,
-      'def initTakesLonger (connected_blocks most_connected_blocks : List Hdr) : Bool :=\n  ' + tr(c))
+    # the whole per-listener body of the first loop, statement by statement (see translate_listener_step)
+    d('init.rs synchronize_listeners, first loop: the WHOLE per-listener body after `find_difference_from_best_block(..).await?`, '
+      'translated statement by statement in source order (`if`, `continue`, `disconnect_blocks(x)` → `disc`, '
+      '`chain_listeners_at_height.push((h, _))` → `recd`, `most_connected_blocks = x` → `most`). `disc` = the fork points the listener is told '
+      'to disconnect to, `recd` = the heights recorded for it (the second loop delivers every fetched block above a recorded height)',
+      translate_listener_step(b))
     c = one(r'for \(height, block_data\) in fetched_blocks\.iter\(\)\.flatten\(\) \{ if (.+?) \{ match', b, 'synchronize_listeners: per-listener filter')
     d('init.rs synchronize_listeners: a fetched block is delivered to a listener `if %s` (listener_height = height of its common ancestor)' % c,
       'def initDelivers (height listener_height : Nat) : Bool :=\n  ' + tr(c))
-    if 'chain_listeners_at_height.push((common_ancestor.height, chain_listener));' not in b: raise Bad('synchronize_listeners: listener height is no longer the common ancestor\'s height')
     one(r'most_connected_blocks \.truncate\(most_connected_blocks\.len\(\)\.saturating_sub\(MAX_BLOCKS_AT_ONCE\)\); \}', b, 'synchronize_listeners: a batch consumes the oldest MAX_BLOCKS_AT_ONCE')
+    # ---- whole-body pins of the hand-mirrored control flow (an inserted / dropped / moved statement is a TRANSLATE-ERROR) ----
+    pin(body_of(lib, 'synchronize_listener'),
+        '{ let difference = self .find_difference_from_header(new_header, old_header, chain_poller) .await .map_err(|e| (e, None))?; '
+        'if «» { self.disconnect_blocks(difference.common_ancestor); } '
+        'self.connect_blocks(difference.common_ancestor, difference.connected_blocks, chain_poller) .await }', 'lib.rs synchronize_listener')
+    pin(body_of(lib, 'update_chain_tip'),
+        '{ let mut chain_notifier = ChainNotifier { header_cache: &mut self.header_cache, chain_listener: &*self.chain_listener, }; '
+        'match chain_notifier .synchronize_listener(best_chain_tip, &self.chain_tip, &mut self.chain_poller) .await { '
+        'Ok(_) => { self.chain_tip = best_chain_tip; true }, Err((_, Some(chain_tip))) if «» => { self.chain_tip = chain_tip; true }, Err(_) => false, } }',
+        'lib.rs update_chain_tip')
+    pin(body_of(lib, 'poll_best_tip'),
+        '{ let chain_tip = self.chain_poller.poll_chain_tip(self.chain_tip).await?; let blocks_connected = match chain_tip { ChainTip::Common => false, '
+        'ChainTip::Better(chain_tip) => { debug_assert_ne!(chain_tip.block_hash, self.chain_tip.block_hash); debug_assert!(chain_tip.chainwork > self.chain_tip.chainwork); '
+        'self.update_chain_tip(chain_tip).await }, ChainTip::Worse(chain_tip) => { debug_assert_ne!(chain_tip.block_hash, self.chain_tip.block_hash); '
+        'debug_assert!(chain_tip.chainwork <= self.chain_tip.chainwork); false }, }; Ok((chain_tip, blocks_connected)) }', 'lib.rs poll_best_tip')
+    pin(body_of(lib, 'connect_blocks'),
+        '{ for header in connected_blocks.drain(..).rev() { let height = header.height; '
+        'let block_data = chain_poller.fetch_block(&header).await.map_err(|e| (e, Some(new_tip)))?; debug_assert_eq!(block_data.block_hash, header.block_hash); '
+        'match block_data.deref() { BlockData::FullBlock(block) => { self.chain_listener.block_connected(block, height); }, '
+        'BlockData::HeaderOnly(header) => { self.chain_listener.filtered_block_connected(header, &[], height); }, } '
+        'self.header_cache.block_connected(header.block_hash, header); new_tip = header; } Ok(()) }', 'lib.rs connect_blocks')
+    h1, h2 = pin(body_of(lib, 'disconnect_blocks'),
+        '{ self.header_cache.blocks_disconnected(&fork_point); let best_block = BlockLocator::new(«», «»); self.chain_listener.blocks_disconnected(best_block); }',
+        'lib.rs disconnect_blocks')
+    d('lib.rs ChainNotifier::disconnect_blocks: the listener is told `blocks_disconnected(BlockLocator::new(%s, %s))` (whole body pinned: cache first, then the listener)' % (h1, h2),
+      'def disconnectLocator (fork_point : Hdr) : Nat × Nat :=\n  (%s, %s)' % (tr(h1), tr(h2)))
+    pin(body_of(lib, 'find_difference_from_best_block'),
+        '{ let cur_tip = core::iter::once((0, &prev_best_block.block_hash)); let prev_tips = prev_best_block.previous_blocks.iter().enumerate().filter_map(|(idx, hash_opt)| { '
+        'if let Some(block_hash) = hash_opt { Some((«», block_hash)) } else { None } }); let mut found_header = None; '
+        'for (height_diff, block_hash) in cur_tip.chain(prev_tips) { if let Some(header) = self.header_cache.look_up(block_hash) { found_header = Some(*header); break; } '
+        'let height = «».ok_or( BlockSourceError::persistent( "BlockLocator had more previous_blocks than its height", ), )?; '
+        'if let Ok(header) = chain_poller.get_header(block_hash, Some(height)).await { found_header = Some(header); self.header_cache.insert_during_diff(*block_hash, header); break; } } '
+        'let found_header = found_header.ok_or_else(|| { BlockSourceError::persistent("could not resolve any block from BlockLocator") })?; '
+        'self.find_difference_from_header(current_header, &found_header, chain_poller).await }', 'lib.rs find_difference_from_best_block')
+    pin(body_of(lib, 'look_up_previous_header', after="impl<'a, L: chain::Listen + ?Sized> ChainNotifier<'a, L>"),
+        '{ match self.header_cache.look_up(&header.header.prev_blockhash) { Some(prev_header) => Ok(*prev_header), None => chain_poller.look_up_previous_header(header).await, } }',
+        'lib.rs ChainNotifier::look_up_previous_header')
+    pin(body_of(init, 'validate_best_block_header'),
+        '{ let (best_block_hash, best_block_height) = block_source.get_best_block().await?; '
+        'block_source.get_header(&best_block_hash, best_block_height).await?.validate(best_block_hash) }', 'init.rs validate_best_block_header')
+    k1 = b.find('for (old_best_block, chain_listener) in chain_listeners.drain(..) {')
+    k2 = _match_brace(b, b.index('{', k1))
+    pin(b[:k1] + '<LISTENER-LOOP>' + b[k2:],
+        '{ let best_header = validate_best_block_header(&*block_source).await?; let mut chain_poller = ChainPoller::new(block_source, network); '
+        'let mut chain_listeners_at_height = Vec::new(); let mut most_connected_blocks = Vec::new(); let mut header_cache = HeaderCache::new(); '
+        'header_cache.retain_on_disconnect = true; <LISTENER-LOOP> while !most_connected_blocks.is_empty() { '
+        '#[cfg(not(test))] const MAX_BLOCKS_AT_ONCE: usize = «»; #[cfg(test)] const MAX_BLOCKS_AT_ONCE: usize = «»; '
+        'let mut fetch_block_futures = Vec::with_capacity(core::cmp::min(MAX_BLOCKS_AT_ONCE, most_connected_blocks.len())); '
+        'for header in most_connected_blocks.iter().rev().take(MAX_BLOCKS_AT_ONCE) { let fetch_future = chain_poller.fetch_block(header); '
+        'fetch_block_futures .push(ResultFuture::Pending(Box::pin(async move { (header, fetch_future.await) }))); } '
+        'let results = MultiResultFuturePoller::new(fetch_block_futures).await.into_iter(); const NO_BLOCK: Option<(u32, crate::poll::ValidatedBlock)> = None; '
+        'let mut fetched_blocks = [NO_BLOCK; MAX_BLOCKS_AT_ONCE]; for ((header, block_res), result) in results.into_iter().zip(fetched_blocks.iter_mut()) { '
+        'let block = block_res?; header_cache.block_connected(header.block_hash, *header); *result = Some((header.height, block)); } '
+        'debug_assert!(fetched_blocks.iter().take(most_connected_blocks.len()).all(|r| r.is_some())); '
+        'debug_assert!(fetched_blocks.windows(2).all(|blocks| { if let (Some(a), Some(b)) = (&blocks[0], &blocks[1]) { a.0 < b.0 } else { blocks[1].is_none() } })); '
+        'for (listener_height, listener) in chain_listeners_at_height.iter() { for (height, block_data) in fetched_blocks.iter().flatten() { if «» { '
+        'match &**block_data { BlockData::FullBlock(block) => { listener.block_connected(&block, *height); }, '
+        'BlockData::HeaderOnly(header_data) => { listener.filtered_block_connected(&header_data, &[], *height); }, } } } } '
+        'most_connected_blocks .truncate(most_connected_blocks.len().saturating_sub(MAX_BLOCKS_AT_ONCE)); } header_cache.retain_on_disconnect = false; '
+        'Ok((header_cache, best_header)) }', 'init.rs synchronize_listeners (everything around the translated listener loop)')
+    pin(body_of(poll, 'fetch_block', after='for ChainPoller<B, T>'),
+        '{ async move { self.block_source.get_block(&header.block_hash).await?.validate(header.block_hash) } }', 'poll.rs ChainPoller::fetch_block')
+    pin(body_of(poll, 'get_header', after='impl<B: Deref<Target = T> + Sized + Send + Sync, T: BlockSource + ?Sized> ChainPoller'),
+        '{ Box::pin(async move { self.block_source.get_header(block_hash, height_hint).await?.validate(*block_hash) }) }', 'poll.rs ChainPoller::get_header')
     m = re.search(r'#\[cfg\(not\(test\)\)\] const MAX_BLOCKS_AT_ONCE: usize = ([0-9_ *+]+);', b)
     if not m: raise Bad('init.rs: #[cfg(not(test))] const MAX_BLOCKS_AT_ONCE not found')
     expr = m.group(1).replace('_', '').strip()
@@ -265,7 +423,7 @@ def main():
     write(os.path.join(GEN, 'ChainSyncConsts.lean'), consts)
     text = ('/- GENERATED by tools/gen_chainsync.py from lightning-block-sync/src/{poll,lib,init}.rs — do not edit.\n'
             '   Decision expressions translated by tools/rs2lean.py; Model/ChainSync.lean calls them. Regenerated on every check. -/\n'
-            'import LdkModel.Prim.Arith\nimport LdkModel.Generated.ChainSyncConsts\nimport LdkModel.Model.ChainSyncTypes\nnamespace Ldk.ChainSync\nopen Ldk\n\n' + '\n'.join(D) + '\nend Ldk.ChainSync\n')
+            'import LdkModel.Prim.Arith\nimport LdkModel.Generated.ChainSyncConsts\nimport LdkModel.Model.ChainSyncTypes\nset_option linter.unusedVariables false\nnamespace Ldk.ChainSync\nopen Ldk\n\n' + '\n'.join(D) + '\nend Ldk.ChainSync\n')
     write(os.path.join(GEN, 'ChainSync.lean'), text)
 
 if __name__ == '__main__':
